@@ -13,6 +13,7 @@ import (
 	"fmt"
 	"math"
 	"os"
+	"time"
 )
 
 type vReplayVal struct {
@@ -185,3 +186,36 @@ func vListDir(dir string) []string {
 
 func vLockHazards(kind string) int { return 0 }
 func vLocksHeld() int              { return 0 }
+
+// vFsFingerprint summarises every file below root (names and bytes).
+func vFsFingerprint(root string) string {
+	var sb []byte
+	var walk func(dir string)
+	walk = func(dir string) {
+		ents, err := os.ReadDir(dir)
+		if err != nil {
+			return
+		}
+		for _, e := range ents {
+			p := dir + "/" + e.Name()
+			if e.IsDir() {
+				sb = append(sb, []byte("D:"+p+"\n")...)
+				walk(p)
+				continue
+			}
+			b, _ := os.ReadFile(p)
+			sb = append(sb, []byte(fmt.Sprintf("F:%s:%d:%x\n", p, len(b), b))...)
+		}
+	}
+	walk(root)
+	return string(sb)
+}
+
+// vRunSpawned: natively the goroutines started by the package really
+// run; give them `ticks` polling periods (the flusher polls every 100ms).
+func vRunSpawned(ticks int) int {
+	time.Sleep(time.Duration(ticks)*110*time.Millisecond + 50*time.Millisecond)
+	return 0
+}
+
+func vSpawnedCount() int { return 0 }
